@@ -53,16 +53,17 @@ def request_sweep(job):
         seen_states = set()
         viols = []
 
-        def sweep(run, phase):
+        def sweep(run, phase, c=None, derived=None):
             if phase == "before_poll":
                 return
-            c = run.c
+            c = c if c is not None else run.c
             before = snap(c)
             key = canon(before["state"])
             if key in seen_states:
                 return
             seen_states.add(key)
             cnt("sweep.states")
+            cnt("sweep.states_in." + str(before["status"]))
             act = {}
             for r in before["state"]["sequence"]:
                 if r.get("status") in ("running", "requested", "scheduled", "delayed", "pausing", "canceling", "resuming", "paused", "pending"):
@@ -120,6 +121,21 @@ def request_sweep(job):
                                       % (req, before["status"], diff,
                                          [r.get("status") for r in before["state"]["sequence"]],
                                          [r.get("status") for r in after["state"]["sequence"]]), step=run.step))
+
+        _sweep0 = sweep
+
+        def sweep(run, phase):  # noqa: F811
+            # the visited state, and - when actions are in flight - the transitional states one accepted pause / cancel request
+            # away from it (pausing, canceling with the same actions in flight): the rows of those statuses are swept too
+            _sweep0(run, phase)
+            if phase != "before_poll" and run.inflight and run.status() == "running" and len(seen_states) % 3 == 0:
+                for pre in ("pausing", "canceling"):
+                    c1 = clone(run.c)
+                    try:
+                        c1.request_workflow_status(pre)
+                    except Exception:
+                        continue
+                    _sweep0(run, phase, c=c1, derived=pre)
 
         # every third history has pause / cancel / resume requests of its own, so that transitional and canceled states
         # (with late acknowledgements and reports) are among the states swept
